@@ -180,7 +180,7 @@ def enumerate_specs(tier):
         for perm in perms:
             for val in (False, True):
                 specs.append({"kind": "split", "n": n, "perm": perm, "val": val})
-    for n in range(1, (3 if tier == "quick" else 5) + 1):
+    for n in range(1, (3 if tier == "quick" else 4) + 1):       # 5 labels have 541 weak orderings: beyond the path budget
         specs.append({"kind": "onehot", "n": n})
         if n <= (2 if tier == "quick" else 3):       # labels -2..2 (n <= 2) or -1..1 (n = 3, thorough)
             specs.append({"kind": "onehot", "n": n, "int": True, "range": 3 if n <= 2 else 2})
@@ -254,7 +254,7 @@ def main(tier, seed):
         PROP, tier, seed, results, t0,
         bounds={"split_dataset": "n <= %d samples with 2 features, all permutations (n <= 3; sampled for n = 4), split fractions symbolic "
                                  "in [0,1]" % (3 if tier == "quick" else 4),
-                "one_hot_encode": "n <= %d symbolic real labels, every weak ordering; n <= 2 integer labels in -2..2 / n = 3 in -1..1 (array and list), every label vector" % (3 if tier == "quick" else 5),
+                "one_hot_encode": "n <= %d symbolic real labels, every weak ordering; n <= 2 integer labels in -2..2 / n = 3 in -1..1 (array and list), every label vector" % (3 if tier == "quick" else 4),
                 "DataLoader (CrossHair)": "lists of <= %d symbolic ints, batch size 1..%d, with and without transform" % (maxn, 4 if tier == "quick" else 6),
                 "DataLoader (SMT lemma)": lem.get("bounds")},
         assumptions=["np.random.shuffle applies an arbitrary permutation (enumerated)", "floats are reals",
